@@ -3,7 +3,9 @@
 (* Unbounded companion of IdpReqLife.tla (Apalache, inductive invariant):  *)
 (* TLC explores every history of up to MaxCalls calls; this shows that the *)
 (* C08 clause "nothing cached or emitted is in clear for an SP that        *)
-(* advertises an encryption key" holds after ANY number of calls.          *)
+(* advertises an encryption key" and the coherence of the two cached       *)
+(* elements hold after ANY number of calls, whatever faults (random source *)
+(* of the encryption step, first / second signature of a call) hit them.   *)
 (*   apalache-mc check --init=IndInit --next=Next --inv=IndInv --length=1  *)
 (*   apalache-mc check --init=Init    --next=Next --inv=IndInv --length=0  *)
 (* The state is IdpReqLife's without the history; `lastOut` / `lastContent`*)
@@ -26,33 +28,41 @@ VARIABLES
   \* @type: Str;
   lastContent
 
-Els == {"nil", "plain", "enc"}
+Els    == {"nil", "plain", "enc"}
+Faults == {"none", "enc", "sig1", "sig2"}
 
 Init == /\ enc \in BOOLEAN /\ bind \in {"post", "artifact"}
         /\ aEl = "nil" /\ rEl = "nil" /\ lastOut = "none" /\ lastContent = "none"
 
-\* @type: (Bool) => <<Bool, Str>>;
-MkA(f) == IF enc THEN (IF f THEN <<FALSE, aEl>> ELSE <<TRUE, "enc">>) ELSE <<TRUE, "plain">>
-\* @type: (Bool) => { ok: Bool, a: Str, r: Str };
-MkR(f) == LET a == IF aEl = "nil" THEN MkA(f) ELSE <<TRUE, aEl>>
-          IN IF a[1] THEN [ok |-> TRUE, a |-> a[2], r |-> a[2]] ELSE [ok |-> FALSE, a |-> aEl, r |-> rEl]
-\* @type: (Bool) => { out: Str, a: Str, r: Str, content: Str };
-Post(f) == LET m == IF rEl = "nil" THEN MkR(f) ELSE [ok |-> TRUE, a |-> aEl, r |-> rEl]
+\* @type: (Str) => { ok: Bool, a: Str };
+MkA(F) == IF F = "sig1" THEN [ok |-> FALSE, a |-> aEl]
+          ELSE IF enc THEN (IF F = "enc" THEN [ok |-> FALSE, a |-> aEl] ELSE [ok |-> TRUE, a |-> "enc"])
+          ELSE [ok |-> TRUE, a |-> "plain"]
+\* @type: (Str) => { ok: Bool, a: Str, r: Str };
+MkR(F) == IF aEl = "nil"
+            THEN LET x == MkA(F) IN
+                 IF ~x.ok THEN [ok |-> FALSE, a |-> aEl, r |-> rEl]
+                 ELSE IF F = "sig2" THEN [ok |-> FALSE, a |-> x.a, r |-> rEl]
+                 ELSE [ok |-> TRUE, a |-> x.a, r |-> x.a]
+            ELSE IF F = "sig1" THEN [ok |-> FALSE, a |-> aEl, r |-> rEl]
+                 ELSE [ok |-> TRUE, a |-> aEl, r |-> aEl]
+\* @type: (Str) => { out: Str, a: Str, r: Str, content: Str };
+Post(F) == LET m == IF rEl = "nil" THEN MkR(F) ELSE [ok |-> TRUE, a |-> aEl, r |-> rEl]
            IN IF ~m.ok THEN [out |-> "err", a |-> m.a, r |-> m.r, content |-> "none"]
               ELSE IF bind # "post" THEN [out |-> "err", a |-> m.a, r |-> m.r, content |-> "none"]
               ELSE [out |-> "form", a |-> m.a, r |-> m.r, content |-> m.r]
 
-CallMakeAssertionEl(f) ==
-  LET a == MkA(f) IN
-  /\ aEl' = a[2] /\ rEl' = rEl /\ lastOut' = (IF a[1] THEN "ok" ELSE "err") /\ lastContent' = "none"
-CallMakeResponse(f) ==
-  LET m == MkR(f) IN
+CallMakeAssertionEl(F) ==
+  LET a == MkA(F) IN
+  /\ aEl' = a.a /\ rEl' = rEl /\ lastOut' = (IF a.ok THEN "ok" ELSE "err") /\ lastContent' = "none"
+CallMakeResponse(F) ==
+  LET m == MkR(F) IN
   /\ aEl' = m.a /\ rEl' = m.r /\ lastOut' = (IF m.ok THEN "ok" ELSE "err") /\ lastContent' = "none"
-CallPost(f) ==
-  LET p == Post(f) IN
+CallPost(F) ==
+  LET p == Post(F) IN
   /\ aEl' = p.a /\ rEl' = p.r /\ lastOut' = p.out /\ lastContent' = p.content
 
-Next == /\ \E f \in BOOLEAN : (f => enc) /\ (CallMakeAssertionEl(f) \/ CallMakeResponse(f) \/ CallPost(f))
+Next == /\ \E F \in Faults : (F = "enc" => enc) /\ (CallMakeAssertionEl(F) \/ CallMakeResponse(F) \/ CallPost(F))
         /\ UNCHANGED <<enc, bind>>
 
 TypeOK == /\ enc \in BOOLEAN /\ bind \in {"post", "artifact"} /\ aEl \in Els /\ rEl \in Els
@@ -65,7 +75,9 @@ Coherent == rEl # "nil" => rEl = aEl
 
 \* ... and of the kind the SP's metadata calls for
 Kinded == ~enc => aEl # "enc" /\ rEl # "enc"
+\* a form never goes out without an assertion in it
+FormHasAssertion == lastOut = "form" => lastContent # "none"
 
-IndInv  == TypeOK /\ NoClearCache /\ Kinded /\ NeverInClear /\ FormOnlyToPost /\ Coherent
+IndInv  == TypeOK /\ NoClearCache /\ Kinded /\ NeverInClear /\ FormOnlyToPost /\ Coherent /\ FormHasAssertion
 IndInit == IndInv
 =============================================================================
